@@ -105,16 +105,20 @@ func checkC01(c *core.Ctx) {
 		k    int
 		name string
 	}
-	plans := []plan{{full, 0, "full"}, {full, 1, "full"}, {full, 2, "full"}}
-	if c.Thorough() {
-		only := func(names ...string) map[string]bool {
-			m := map[string]bool{}
-			for _, n := range names {
-				m[n] = true
-			}
-			return m
+	only := func(names ...string) map[string]bool {
+		m := map[string]bool{}
+		for _, n := range names {
+			m[n] = true
 		}
+		return m
+	}
+	plans := []plan{{full, 0, "full"}, {full, 1, "full"}, {full, 2, "full"},
+		{fo.Profile{Only: only("if-else", "if-only", "app-say")}, 3, "if nesting"},
+		{fo.Profile{Only: only("let", "lambda-let", "partial-let", "pipe-partial", "local-fun", "lifted-annotated", "lifted-unannotated", "app-add", "app-fnvalue", "app-say")}, 3, "closure constructs"}}
+	if c.Thorough() {
 		plans = append(plans,
+			plan{fo.Profile{Only: only("if-else", "if-only", "match-union-default")}, 3, "if and match nesting"},
+			plan{fo.Profile{Only: only("if-else", "if-only", "match-union", "match-union-default", "app-say", "seq", "let")}, 3, "control-flow constructs"},
 			plan{fo.Profile{Only: only("if-else", "match-union", "match-union-default", "let", "lambda-let", "partial-let", "pipe-partial", "local-fun", "seq", "lifted-annotated", "lifted-unannotated", "logic", "app-add", "app-fnvalue", "app-say", "if-only", "let-destr", "interp", "field-of-var")}, 3, "control-flow and closure constructs"},
 			plan{fo.Profile{Only: only("if-else", "let", "partial-let", "lambda-let", "seq", "app-add", "local-fun", "app-fnvalue")}, 4, "closure core"})
 	}
@@ -123,6 +127,7 @@ func checkC01(c *core.Ctx) {
 		c.NotExhaustive("corpus only (debugging switch)")
 	}
 	used := map[string]int64{}
+	var completedPlans []string
 	for _, pl := range plans {
 		if c.Expired() || c.TooManyViolations() {
 			c.NotExhaustive(fmt.Sprintf("k=%d (%s) not started", pl.k, pl.name))
@@ -143,7 +148,8 @@ func checkC01(c *core.Ctx) {
 			c.NotExhaustive(fmt.Sprintf("k=%d (%s): stopped after %d programs", pl.k, pl.name, n))
 			break
 		}
-		c.Set("largest_fuel_completed", fmt.Sprintf("k=%d (%s alphabet)", pl.k, pl.name))
+		completedPlans = append(completedPlans, fmt.Sprintf("k=%d (%s)", pl.k, pl.name))
+		c.Set("plans_completed", completedPlans)
 	}
 	// the hand-kept boundary corpus
 	if !c.Expired() && !c.TooManyViolations() {
@@ -262,7 +268,15 @@ func c01Classify(cs *c01Case, r gobatch.Result) (sig, what string) {
 		s2, w2 := c01ClassifyGen(cs, r)
 		return "C01:corpus:" + cs.cs.Name, strings.TrimPrefix(s2, "C01:") + ": " + w2
 	}
-	return c01ClassifyGen(cs, r)
+	sig, what = c01ClassifyGen(cs, r)
+	// generated programs of a shape with a recorded defect (same shape predicate as C06) are identified by
+	// the shape and the failure classes that defect produces (rejection or re-association), nothing else
+	if r.Status == "fc-reject" || (r.Status == "ok" && sig == "C01:wrong-output") {
+		if sh := c06Shape(cs.cs, cs.src); sh != "" {
+			return "C01:shape:" + sh, strings.TrimPrefix(sig, "C01:") + ": " + what
+		}
+	}
+	return sig, what
 }
 
 func c01ClassifyGen(cs *c01Case, r gobatch.Result) (sig, what string) {
